@@ -288,6 +288,14 @@ func enumStringIntrinsic(w *World, t *Thread, fr *frame, fn *ssa.Function, args 
 }
 
 func init() {
+	// DTLS certificates from a seed: x509/ecdsa machinery, third party; the model yields two
+	// certificate objects (what must agree between the ends - the HKDF draws - is C01's subject)
+	reg(repoMod+"/pkg/dtls.certsFromSeed", func(w *World, t *Thread, fr *frame, fn *ssa.Function, args []Value) Value {
+		rt := fn.Signature.Results().At(0).Type()
+		a, b := new(Value), new(Value)
+		*a, *b = w.zero(deref(rt)), w.zero(deref(rt))
+		return Tuple{a, b, w.nilError()}
+	})
 	// metrics: a statsd-like side channel, environment
 	nopM := func(w *World, t *Thread, fr *frame, fn *ssa.Function, args []Value) Value { return w.zeroResults(fn) }
 	reg("(*"+repoMod+"/pkg/metrics.Metrics).Add", nopM)
